@@ -669,7 +669,12 @@ def mp4(ctx, R):
                             "data reads are not refused / reading is not forced to metadata only" if want[name] else "a data file is treated as index-only"))
     if n < 4:
         raise AnchorMissing("reader.TdmsReader.__init__: constructor scenarios (decided %d)" % n)
-    IIO = lambda c: isinstance(c, tuple) and c and c[0] in ("method", "call") and "is_index_file_only" in str(c[1])
+    from .sym import _rename_self
+    from .callgraph import field_classes
+    tf = prog.cls("tdms.TdmsFile")
+    inlined = [_rename_self(pred, ("self", f)) for f, ks in field_classes(prog, tf).items() if any(k.qual == "reader.TdmsReader" for k in ks)]
+    # the predicate as a call, or inlined on the reader the file object keeps
+    IIO = lambda c: (isinstance(c, tuple) and c and c[0] in ("method", "call") and "is_index_file_only" in str(c[1])) or c in inlined
     fi = prog.func("tdms.TdmsFile.__init__")
     sy = Sym(prog, fi, fi.cls)
     from .flow import resolve_call
